@@ -1,9 +1,18 @@
 import HapVerif.Model.C15
+import HapVerif.Model.C15Track
 import HapVerif.Drv.C03
 /-!
 Driver of C15.  `C15 world <ops...> => <sni>=<crt>,...` and `C15 hist <ops with sync> => <sni>=<disk>|<running>,...`;
 `<crt>` = `default` | `ns/name@version` | `-` (no such file / not loaded) | `?hash` (unknown content).
-The model of a history is the full sync of its final cluster state.
+The model of a history is the full sync of its final cluster state (the harness emits one line per
+reconciliation of a history: the prefix of the history that ends with that `sync`).
+
+`C15 trk <ops with sync> => <ns/secret>=<ing>+<ing>:<host>+<host>,...`: what the REAL tracker of the long-lived
+controller returns for a query seeded with each Secret after the last `sync` of the line (ingresses, hosts; `-` =
+none).  Model: `C15.partialSync` / `C15.fullSyncT` over the batches (Model/C15Track.lean).  The model tracks hosts and
+certificates only, the real tracker everything, so `agree` = the model's closure is contained in the real one;
+oracle = every `(ingress, host)` of a tls block whose Secret name resolves to `ns/secret` is in the real closure
+(`rotation_reaches_all_readers` evaluated on the implementation).
 -/
 namespace HapVerif.C15
 open HapVerif.Drv HapVerif.Sync HapVerif.Sync.Parse
@@ -53,8 +62,88 @@ def handleCase (toks : List String) (impl : String) : Verdict :=
       { model := ",".intercalate (model.map fun (sni, m) => String.ofList sni ++ "=" ++ showCrt m),
         agree := agree, oracle := oracle, trivial := c.tls.isEmpty }
 
+/-! ## tracker lines -/
+
+/-- ingress / secret events of one token (validity = `IsValidIngress` at the time of the event); every other
+token is outside the tracker model -/
+def tokOps (tok : Str) : Option (List Op) :=
+  let putIng (t : Str) : Option (List Op) := do
+    let r ← parseIngress t
+    pure [.ingPut { r.ing with valid := classValid [] r.classAnn r.className }]
+  if let some t := stripPrefix "ing+" tok then putIng t
+  else if let some t := stripPrefix "ing~" tok then putIng t
+  else if let some t := stripPrefix "ing-" tok then
+    let (ns, n) := splitKey t
+    some [.ingDel ns n]
+  else if let some t := (stripPrefix "sec+" tok).orElse (fun _ => stripPrefix "sec~" tok) then
+    match splitOnC '!' t with
+    | [k, kind, v, _] => let (ns, n) := splitKey k; some [.secPut ⟨ns, n, kind = "tls".toList, atoi v⟩]
+    | _ => none
+  else if let some t := stripPrefix "sec-" tok then
+    let (ns, n) := splitKey t
+    some [.secDel ns n]
+  else some []
+
+/-- the tokens between two `sync` -/
+def splitBatches (toks : List Str) : List (List Str) :=
+  let (cur, acc) := toks.foldl (fun (p : List Str × List (List Str)) t =>
+    if t = "sync".toList then ([], p.1.reverse :: p.2) else (t :: p.1, p.2)) ([], [])
+  (if cur.isEmpty then acc else cur.reverse :: acc).reverse
+
+/-- first reconciliation and reconciliations with a ConfigMap event: full sync; every other one: partial sync -/
+def trackStep (xns : Bool) (st : Option TState) (b : List Str) : Option (Option TState) := do
+  let ops := (← b.mapM tokOps).flatten
+  match st with
+  | none => pure (some (fullSyncT (({ opts := { crossNsSecret := xns } } : World).applyAll ops) []))
+  | some s =>
+    if b.any (fun t => (stripPrefix "cm~" t).isSome) then pure (some (fullSyncT (s.w.applyAll ops) []))
+    else pure (some (partialSync s { ops := ops }))
+
+def runTrack (xns : Bool) (batches : List (List Str)) : Option TState :=
+  (batches.foldlM (trackStep xns) none).map (·.getD (fullSyncT {} []))
+
+def parseNames (s : Str) : List Str := if s = ['-'] ∨ s.isEmpty then [] else splitOnC '+' s
+
+/-- `ns/secret=ing+ing:host+host` -/
+def parseTrk (s : Str) : Option ((Str × Str) × List Str × List Str) :=
+  match split1 '=' s with
+  | (k, some rhs) =>
+    match split1 ':' rhs with
+    | (is, some hs) => some (splitKey k, parseNames is, parseNames hs)
+    | _ => none
+  | _ => none
+
+def showNames (l : List Str) : String :=
+  if l.isEmpty then "-" else "+".intercalate ((sortBy C03.strLt l).map String.ofList)
+
+def handleTrk (toks : List String) (impl : String) : Verdict :=
+  let ts := toks.map String.toList
+  if ts.any (fun t => (stripPrefix "cls" t).isSome) then bad "trk-class-objects" else
+  match runTrack (toks.contains "opt~xns=1") (splitBatches (ts.filter fun t => (stripPrefix "opt~" t).isNone)),
+        C03.parseItems parseTrk impl with
+  | none, _ => bad "parse-ops"
+  | _, none => bad "parse-impl"
+  | some s, some items =>
+    let model := items.map fun (k, _, _) => (k, closureOf s.t k.1 k.2)
+    let agree := (items.zip model).all fun ((_, is, hs), (_, mi, mh)) =>
+      mi.all (is.contains ·) && mh.all (hs.contains ·)
+    let needed : List ((Str × Str) × Str × Str) :=
+      (s.w.ings.filter (·.valid)).flatMap fun i =>
+        i.tls.flatMap fun b =>
+          match secNode s.w i.ns b with
+          | some (.sec a n) => b.hosts.map fun h => ((a, n), ingKey i, h)
+          | _ => []
+    let oracle := needed.findSome? fun (k, ik, h) =>
+      match items.find? (·.1 = k) with
+      | none => some "secret-reader-not-tracked"
+      | some (_, is, hs) => if is.contains ik && hs.contains h then none else some "secret-reader-not-tracked"
+    { model := if model.isEmpty then "-" else ",".intercalate (model.map fun (k, mi, mh) =>
+        String.ofList k.1 ++ "/" ++ String.ofList k.2 ++ "=" ++ showNames mi ++ ":" ++ showNames mh),
+      agree := agree, oracle := oracle, trivial := needed.isEmpty }
+
 def handle (args : List String) (impl : String) : Verdict :=
   match args with
+  | "trk" :: toks => if impl = "PANIC" then { model := "-", agree := false, oracle := some "panic" } else handleTrk toks impl
   | "world" :: toks => if impl = "PANIC" then { model := "-", agree := false, oracle := some "panic" } else handleCase toks impl
   | "hist" :: toks => if impl = "PANIC" then { model := "-", agree := false, oracle := some "panic" } else handleCase toks impl
   | _ => bad "C15"
